@@ -73,7 +73,7 @@ let show_out = function
   | OErr e -> "E:" ^ show_err e | OPanic _ -> "PANIC"
 
 let optn = function None -> "-" | Some x -> string_of_int (int_of_n x)
-let npkgs = 4 and nnames = 12
+let npkgs = 5 and nnames = 12
 
 let dump u (s : gstate) : string =
   let b = Buffer.create 256 in
